@@ -845,15 +845,45 @@ func (x *Exec) clause(c *Clause, env *SpecEnv) (f string, ok bool) {
 	return env.boolean(c.Expr), true
 }
 
+// clauseProved: the formula to prove for clause c (opaque specs named by its reveal list expanded) and the formula to
+// assume once it is proved (folded).
+func (x *Exec) clauseProved(c *Clause, env *SpecEnv) (goal, keep string, ok bool) {
+	keep, ok = x.clause(c, env)
+	if !ok || len(c.Reveal) == 0 {
+		return keep, keep, ok
+	}
+	e2 := *env
+	e2.reveal = map[string]bool{}
+	for _, n := range c.Reveal {
+		e2.reveal[n] = true
+	}
+	goal, ok = x.clause(c, &e2)
+	return goal, keep, ok
+}
+
 func (x *Exec) assertInv(lc *LoopContract, ord int, st *State, pos token.Pos, kind string, n ast.Node, headVariant []string) {
 	if lc == nil {
 		return
 	}
 	env := x.specEnvAt(st, pos)
+	if kind == "inv-entry" {
+		for _, c := range lc.EntryLemmas {
+			if f, keep, ok := x.clauseProved(c, env); ok {
+				x.oblige(st, fmt.Sprintf("entry-lemma@loop%d", ord), c.Label, n, f)
+				st.assume(keep)
+			}
+		}
+	}
 	for _, c := range lc.Invariants {
-		if f, ok := x.clause(c, env); ok {
+		f, keep, ok := x.clauseProved(c, env)
+		if kind != "inv-entry" {
+			// an invariant is revealed where it is established; it is preserved in its folded form
+			f, ok = x.clause(c, env)
+			keep = f
+		}
+		if ok {
 			x.oblige(st, fmt.Sprintf("%s@loop%d", kind, ord), c.Label, n, f)
-			st.assume(f)
+			st.assume(keep)
 		}
 	}
 	if headVariant != nil {
@@ -1127,6 +1157,15 @@ func (x *Exec) rangeStmt(n *ast.RangeStmt, label string, st *State, fr *frame, k
 	case *types.Slice:
 		lenT = app("s-len", coll.S)
 		elemAt = func(st *State, i Term) Term { return x.loadElem(st, coll, i, u.Elem()) }
+		// the ranged-over slice value is fixed when the loop starts: range_x<N> names it, range_n<N> its length
+		for name, t := range map[string]Term{fmt.Sprintf("range_n%d", ord): {S: lenT, Sort: "Int", T: intT}, fmt.Sprintf("range_x%d", ord): coll} {
+			v, ok := x.synth[name]
+			if !ok {
+				v = types.NewVar(n.Pos(), x.fi.Pkg.Types, name, t.T)
+				x.synth[name] = v
+			}
+			st.vars[v] = t
+		}
 	case *types.Array:
 		lenT = x.arrayLen(u)
 		elemAt = func(st *State, i Term) Term {
@@ -1414,9 +1453,9 @@ func (x *Exec) finish(st *State, vals []Term, n ast.Node) {
 			x.useClauses([]*Clause{c}, env, st)
 			continue
 		}
-		if f, ok := x.clause(c, env); ok {
+		if f, keep, ok := x.clauseProved(c, env); ok {
 			x.oblige(st, "post", c.Label, n, f)
-			st.assume(f)
+			st.assume(keep)
 		}
 	}
 	x.checkFrame(st, n)
